@@ -173,6 +173,15 @@ fn load_relevant_coins<C: ContentAddrStore>(
         if !tx.is_well_formed() {
             return Err(StateError::MalformedTx);
         }
+        // `Transaction::total_outputs` adds the output values and the fee without overflow checks: a transaction whose
+        // outputs and fee do not fit in a u128 can never balance, so refuse it here instead of overflowing later
+        let mut total: u128 = tx.fee.0;
+        for output in tx.outputs.iter() {
+            total = match total.checked_add(output.value.0) {
+                Some(total) => total,
+                None => return Err(StateError::MalformedTx),
+            };
+        }
 
         let coins_to_add = output_coins_from_tx(tx, this.height);
         if !coins_to_add.is_empty() {
